@@ -105,7 +105,9 @@ def rule_r2(ctx: Ctx) -> None:
 
 
 # ------------------------------------------------------------------------------------------------ R1 / R3 / R4
-STR1_CODES = [0x00, 0x41, 0x7F, 0x80, 0xFF, 0x100, 0x7FF, 0x800, 0xD800, 0xFFFF, 0x10FFFF]
+# ... and single characters outside ASCII whose canonical / compatibility normal form is an ASCII character (KELVIN SIGN -> K,
+# GREEK QUESTION MARK -> ;, GREEK VARIA -> `, FULLWIDTH A -> A, ROMAN NUMERAL ONE -> I): not ASCII, whatever they normalise to
+STR1_CODES = [0x00, 0x41, 0x7F, 0x80, 0xFF, 0x100, 0x7FF, 0x800, 0xD800, 0xFFFF, 0x10FFFF, 0x212A, 0x037E, 0x1FEF, 0xFF21, 0x2160]
 
 
 def rule_r1(ctx: Ctx) -> None:
